@@ -21,3 +21,7 @@ def check(ctx: Ctx) -> None:
     S.r_no_shared_task(ctx, "R06.6")
     # 'each observes one CancelledError at its next suspension point': also when that point lies inside a pool coroutine
     K.r_no_swallow(ctx, "R06.7")
+    # "cancel(id) of a running task delivers": a running task is found only while it is in the running registry - the close must not
+    # wipe the registries under tasks that are still alive (a gather left by an exception has waited for nothing)
+    from . import close as _CL
+    _CL.r_forget_only_gathered(ctx, "R06.8")
